@@ -22,16 +22,74 @@ def setup_repo():
     return root
 
 
+class MissingFunction:
+    """stands for a function / class of the repository that a contract names and that no longer exists under that
+    name (renamed or removed by a refactoring): every contract that lists it is undecided, the others run"""
+
+    def __init__(self, where, name):
+        self.__name__ = self.__qualname__ = name
+        self.where = where
+
+    def __call__(self, *a, **kw):
+        from pyvc.sym import Inapplicable
+        raise Inapplicable(f"{self.where}.{self.__name__} no longer exists under this name")
+
+    def __getattr__(self, name):
+        if name.startswith("__"):
+            raise AttributeError(name)
+        return MissingFunction(f"{self.where}.{self.__name__}", name)
+
+
+def _repo_object(o):
+    mod = o.__name__ if isinstance(o, type(sys)) else getattr(o, "__module__", "")
+    return isinstance(mod, str) and (mod == "pycaption" or mod.startswith("pycaption."))
+
+
+def _in_props(tb):
+    """the exception was raised by a statement of a props module itself (a name of the repository it mentions),
+    not inside the engine or inside repository code"""
+    last = traceback.extract_tb(tb)[-1]
+    return os.path.dirname(os.path.abspath(last.filename)) == os.path.join(VERIF, "props")
+
+
 def run_property(prop, tier, seed, root, lock_mode=False):
     from pyvc.report import CheckContext, finish
-    ctx = CheckContext(prop, tier, seed, root)
-    mod = importlib.import_module(f"props.{prop}")
+    placed = []
     try:
-        mod.run(ctx)
-    except Exception:
-        print("CHECKER-ERROR " + traceback.format_exc())
-        return 3
-    return finish(ctx, lock_mode=lock_mode)
+        for attempt in range(12):
+            ctx = CheckContext(prop, tier, seed, root)
+            try:
+                mod = importlib.import_module(f"props.{prop}")
+                mod.run(ctx)
+                break
+            except AttributeError as e:
+                obj, name = getattr(e, "obj", None), getattr(e, "name", None)
+                if obj is None or not name or not _repo_object(obj) or not _in_props(e.__traceback__) or attempt == 11:
+                    print("CHECKER-ERROR " + traceback.format_exc())
+                    return 3
+                where = obj.__name__ if hasattr(obj, "__name__") else type(obj).__name__
+                setattr(obj, name, MissingFunction(where, name))
+                placed.append((obj, name))
+            except ImportError as e:
+                modname, name = getattr(e, "name", None), getattr(e, "name_from", None)
+                if not modname or not name or not (modname == "pycaption" or modname.startswith("pycaption.")) \
+                        or modname not in sys.modules or not _in_props(e.__traceback__) or attempt == 11:
+                    print("CHECKER-ERROR " + traceback.format_exc())
+                    return 3
+                setattr(sys.modules[modname], name, MissingFunction(modname, name))
+                placed.append((sys.modules[modname], name))
+                for k in [k for k in sys.modules if k.startswith("props.")]:
+                    del sys.modules[k]          # (a half-imported props module is imported again)
+            except Exception:
+                print("CHECKER-ERROR " + traceback.format_exc())
+                return 3
+        return finish(ctx, lock_mode=lock_mode)
+    finally:
+        for obj, name in placed:
+            try:
+                delattr(obj, name)
+            except Exception:
+                pass
 
 
 def main():
